@@ -9,4 +9,5 @@ mkdir -p work/sany
 for f in spec/*.tla; do
   (cd spec && java -cp /opt/veriftools/tla/tla2tools.jar tla2sany.SANY "$(basename "$f")" > ../work/sany/$(basename "$f").log 2>&1) || { echo "SANY failed: $f"; tail -20 work/sany/$(basename "$f").log; exit 1; }
 done
+./check selftest | tail -1
 echo "setup ok: $(ls spec/*.tla | wc -l) specifications parsed"
